@@ -120,22 +120,37 @@ class Family:
         self.pid_field[c.qual] = pid
         # re-open helper: compares the pid field with os.getpid()
         helper = None
+        cands = []
         for k in c.repo_mro():
-            for f in k.methods.values():
-                if f.self_name is None:
+            for f0 in k.methods.values():
+                if f0.self_name is None or P.resolve(c, f0.name) is not f0:
                     continue
+                # read with the class's private helpers inlined (sa/inline.py): the test and the close/open pair may live in helpers
+                f = P.resolve_view(c, f0.name) or f0
+                from ..flow import Flow
+                fl = None
                 for n in walk_own(f.node):
                     if isinstance(n, ast.Compare):
                         parts = [n.left] + list(n.comparators)
-                        pid_locals = {a_.targets[0].id for a_ in walk_own(f.node) if isinstance(a_, ast.Assign)
-                                      and isinstance(a_.targets[0], ast.Name) and is_call_to(P, f, a_.value, "os.getpid")}
-                        has_pid = any(is_call_to(P, f, x, "os.getpid") or (isinstance(x, ast.Name) and x.id in pid_locals)
-                                      for x in parts)
+                        if fl is None:
+                            fl = Flow(f.node)
+                        # a local that names the current pid / the recorded owner stands for it
+                        parts = [fl.expand(x) if isinstance(x, ast.Name) else x for x in parts]
+                        has_pid = any(is_call_to(P, f, x, "os.getpid") for x in parts)
                         has_fld = any(dotted(x) == (f.self_name, pid) for x in parts)
-                        if has_pid and has_fld and P.resolve(c, f.name) is f:
-                            helper = f
-            if helper:
+                        if has_pid and has_fld:
+                            reopens = any(isinstance(cl.func, ast.Attribute) and cl.func.attr in ("open", "close") for cl in calls_in(f.node))
+                            cands.append((reopens, f0, f))
+        # the helper is the method that also closes and opens (a bare predicate that only compares is one of its parts)
+        self.reopen_view = getattr(self, "reopen_view", {})
+        for reopens, f0, f in cands:
+            if reopens:
+                helper = f0
+                self.reopen_view[c.qual] = f
                 break
+        if helper is None and cands:
+            helper = cands[0][1]
+            self.reopen_view[c.qual] = cands[0][2]
         self.reopen_foreign_compare = getattr(self, "reopen_foreign_compare", {})
         if helper is None and c.qual in self.foreign_identity:
             for k in c.repo_mro():
@@ -254,6 +269,7 @@ class HandleTypestate(Client):
         self.dirty_const = dirty_const
         self.findings: Dict[Tuple[str, str, str, int], dict] = {}
         self.sites: Set[Tuple[str, int]] = set()
+        self.stale_alias: Set[Tuple[str, int]] = set()
 
     def should_inline(self, func: Func, call, ctx: Ctx) -> bool:
         return func is not self.helper
@@ -263,6 +279,23 @@ class HandleTypestate(Client):
         if not isinstance(f, ast.Attribute):
             return None
         d = dotted(f.value)
+        if isinstance(f.value, ast.Name) and not ctx.scope.is_self(f.value):
+            # a local alias of the handle (`handle = self.file`): the same access, provided the alias is not older than a
+            # re-open check that stands between its definition and this use (then it names the handle of the other process)
+            from ..flow import Flow
+            from ..util import before
+            fl = getattr(ctx.func.node, "_flow", None)
+            if fl is None:
+                fl = ctx.func.node._flow = Flow(ctx.func.node)
+            df = fl.single_def(f.value)
+            if df is not None and df.kind == "assign" and isinstance(df.value, ast.expr):
+                d2 = dotted(fl.expand(f.value))
+                if d2 and len(d2) == 2 and ctx.scope.is_self(ast.Name(id=d2[0], ctx=ast.Load())) and d2[1] in self.handles:
+                    stale = any(ctx.scope.resolve_call(cl) is self.helper and before(ctx.func.node, df.value, cl)
+                                and before(ctx.func.node, cl, call) for cl in calls_in(ctx.func.node))
+                    if stale:
+                        self.stale_alias.add((ctx.func.short, call.lineno))
+                    d = d2
         if d and len(d) == 2 and ctx.scope.is_self(ast.Name(id=d[0], ctx=ast.Load())) and d[1] in self.handles \
                 and ctx.scope.cls is self.cls:
             if f.attr == "seek":
@@ -295,7 +328,7 @@ class HandleTypestate(Client):
         if kind in ("seek", "read"):
             self.sites.add((ctx.func.short, node.lineno))
             chain = ctx.chain
-            if owner != OWNED:
+            if owner != OWNED or (ctx.func.short, node.lineno) in self.stale_alias:
                 self._find("owner", kind, node, ctx, chain)
             if kind == "seek":
                 return ((owner, POS),)
